@@ -22,7 +22,8 @@
  *   punch <f> <ia> <ib>               c[ia], c[ib] block aligned; handle closed, ext2fs_punch(blocks), handle reopened
  *   falloc <f> <ia> <ib> <mode>       block aligned; handle closed, ext2fs_fallocate, reopened.  mode: 0 init
  *                                     (FORCE_INIT|ZERO_BLOCKS|INIT_BEYOND_EOF), 1 uninit (FORCE_UNINIT),
- *                                     2 keep_size (flags 0, what fuse2fs passes with KEEP_SIZE), 3 zero (ZERO_BLOCKS|INIT_BEYOND_EOF);
+ *                                     2 keep_size (flags 0, what fuse2fs passes with KEEP_SIZE), 3 zero (ZERO_BLOCKS|INIT_BEYOND_EOF),
+ *                                     4 zero + keep_size (ZERO_BLOCKS);
  *                                     modes 0 and 3 then extend i_size to c[ib] as fuse2fs does without KEEP_SIZE
  *   flush <f> | reopen <f> | remount  ext2fs_file_flush / close+open of the handle / close both, ext2fs_close, open again
  *   fill <n>                          (image preparation) write a filler file until at most n blocks are free
@@ -623,14 +624,15 @@ int main(int argc, char **argv)
 			logop("punch", f, a, b, 0, 0, e ? e : ce, 1);
 			print_files(-1);
 		} else if (!strcmp(cmd, "falloc")) {
-			static const int fl[4] = {
+			static const int fl[5] = {
 				EXT2_FALLOCATE_FORCE_INIT | EXT2_FALLOCATE_ZERO_BLOCKS | EXT2_FALLOCATE_INIT_BEYOND_EOF,
 				EXT2_FALLOCATE_FORCE_UNINIT,
 				0,
-				EXT2_FALLOCATE_ZERO_BLOCKS | EXT2_FALLOCATE_INIT_BEYOND_EOF };
+				EXT2_FALLOCATE_ZERO_BLOCKS | EXT2_FALLOCATE_INIT_BEYOND_EOF,
+				EXT2_FALLOCATE_ZERO_BLOCKS };
 			errcode_t ce;
 			__u64 sz = 0;
-			if (sscanf(line, "%*s %d %d %d %d", &f, &a, &b, &mode) != 4 || mode < 0 || mode > 3) die("falloc args", 0);
+			if (sscanf(line, "%*s %d %d %d %d", &f, &a, &b, &mode) != 4 || mode < 0 || mode > 4) die("falloc args", 0);
 			need_aligned(f, a); need_aligned(f, b);
 			ce = close_handle(f);
 			e = ext2fs_fallocate(fs, fl[mode], ino[f], NULL, ~0ULL, cuts[f][a] / fs->blocksize,
